@@ -139,6 +139,36 @@ pub fn check_c01(c: &SolveCase, ctx: &mut Ctx) -> CheckResult {
         return Ok(());
     }
     let out = run_caught(c)?;
+    judge_c01(c, out, ctx)
+}
+
+/// C01 cases reached on a live solver object (see ResolveCase): first solve on (P, q0, A, b0), then
+/// update_q / update_b to the case's data, then the judged solve
+pub fn gen_c01_resolve(t: &mut Tape, cfg: &GenCfg) -> ResolveCase {
+    // no infinite bounds here: which rows are dropped is decided at construction (C09), and the construction
+    // data (q0, b0) of a ResolveCase are finite, so an infinite entry installed later would be live data
+    let mut ps = gen_feasible(t, cfg);
+    if t.chance(0.15) {
+        badly_scale(t, &mut ps, 2.0);
+    }
+    let st = gen_settings(t);
+    resolve_from(t, SolveCase { ps, st })
+}
+
+pub fn check_c01_resolve(c: &ResolveCase, ctx: &mut Ctx) -> CheckResult {
+    let bound = infinity_bound();
+    if near_bound(&c.base.ps, bound) {
+        ctx.discard = true;
+        return Ok(());
+    }
+    match second_solve(c, ctx)? {
+        Some((out, st0)) => judge_c01(&c.base, out, ctx).map_err(|e| format!("second solve of one solver object, after update_q/update_b (first solve: {}): {e}", status_name(st0))),
+        None => Ok(()),
+    }
+}
+
+fn judge_c01(c: &SolveCase, out: SolveOut, ctx: &mut Ctx) -> CheckResult {
+    let bound = infinity_bound();
     ctx.sub_evals += 1;
     label_case(&c.ps, &c.st, &out, ctx);
     if out.status != SolverStatus::Solved {
@@ -181,6 +211,10 @@ pub struct ResolveCase {
 
 pub fn gen_c02_resolve(t: &mut Tape, cfg: &GenCfg) -> ResolveCase {
     let base = gen_c02(t, cfg);
+    resolve_from(t, base)
+}
+
+fn resolve_from(t: &mut Tape, base: SolveCase) -> ResolveCase {
     let dp = base.ps.dense();
     let x0: Vec<f64> = (0..dp.n).map(|_| t.nice(1.0)).collect();
     let mut s0 = vec![];
@@ -197,7 +231,8 @@ pub fn gen_c02_resolve(t: &mut Tape, cfg: &GenCfg) -> ResolveCase {
     ResolveCase { base, q0, b0 }
 }
 
-pub fn check_c02_resolve(c: &ResolveCase, ctx: &mut Ctx) -> CheckResult {
+/// first solve on (q0, b0), updates, second solve; None when the updates are (legitimately) refused
+fn second_solve(c: &ResolveCase, ctx: &mut Ctx) -> Result<Option<(SolveOut, SolverStatus)>, String> {
     use clarabel::solver::IPSolver;
     let first = catch(|| {
         let mut ps0 = c.base.ps.clone();
@@ -215,13 +250,22 @@ pub fn check_c02_resolve(c: &ResolveCase, ctx: &mut Ctx) -> CheckResult {
     if !accepted {
         // presolve reduction or chordal decomposition active: updates are documented to be refused
         ctx.label("update-refused");
-        return Ok(());
+        return Ok(None);
     }
     let out = catch(|| run_built(solver, &c.base.st)).map_err(|p| format!("panic during the second solve: {p}"))?;
-    if st0 == SolverStatus::Solved && matches!(out.status, SolverStatus::PrimalInfeasible | SolverStatus::DualInfeasible) {
-        ctx.label("solved-then-infeasible");
+    Ok(Some((out, st0)))
+}
+
+pub fn check_c02_resolve(c: &ResolveCase, ctx: &mut Ctx) -> CheckResult {
+    match second_solve(c, ctx)? {
+        Some((out, st0)) => {
+            if st0 == SolverStatus::Solved && matches!(out.status, SolverStatus::PrimalInfeasible | SolverStatus::DualInfeasible) {
+                ctx.label("solved-then-infeasible");
+            }
+            judge_c02(&c.base, out, ctx).map_err(|e| format!("second solve of one solver object, after update_q/update_b (first solve: {}): {e}", status_name(st0)))
+        }
+        None => Ok(()),
     }
-    judge_c02(&c.base, out, ctx).map_err(|e| format!("second solve of one solver object, after update_q/update_b (first solve: {}): {e}", status_name(st0)))
 }
 
 fn judge_c02(c: &SolveCase, out: SolveOut, ctx: &mut Ctx) -> CheckResult {
@@ -552,6 +596,8 @@ pub fn run_c01(run: &mut PropRun) {
     let large = cfg_for(run, true);
     run.suite(Suite { name: "solved", cases: run.cfg.n(60_000, 1_500_000), tape_len: 1500, gen: &|t| gen_c01(t, &small), check: &check_c01 });
     run.suite(Suite { name: "solved-large", cases: run.cfg.n(3_000, 100_000), tape_len: 12_000, gen: &|t| gen_c01(t, &large), check: &check_c01 });
+    run.replay_dir::<ResolveCase>("solved-after-update", &check_c01_resolve);
+    run.suite(Suite { name: "solved-after-update", cases: run.cfg.n(20_000, 500_000), tape_len: 1800, gen: &|t| gen_c01_resolve(t, &small), check: &check_c01_resolve });
 }
 
 pub fn run_c02(run: &mut PropRun) {
@@ -585,6 +631,7 @@ pub fn run_c04(run: &mut PropRun) {
 
 pub fn replay(id: &str, _suite: &str, path: &str) -> CheckResult {
     match id {
+        "C01" if _suite.starts_with("solved-after-update") => replay_file::<ResolveCase>(path, &check_c01_resolve),
         "C01" => replay_file::<SolveCase>(path, &check_c01),
         "C02" if _suite.starts_with("infeasible-after-update") => replay_file::<ResolveCase>(path, &check_c02_resolve),
         "C02" => replay_file::<SolveCase>(path, &check_c02),
